@@ -105,9 +105,14 @@ def jobs(tier, seed):
     nc = 80 if tier == "quick" else 1500
     for i in range(nc):
         c1 = CS.rand_contract(rng, ["x"], ["y"], alphabet, na=(0, 1, 2), ng=(1, 2))
-        mode = rng.choice(["self", "weaker-a", "random", "needs-assumption", "mismatch", "mismatch-roles"])
+        mode = rng.choice(["self", "weaker-a", "random", "needs-assumption", "mismatch", "mismatch-roles", "near-a"])
         if mode == "self":
             c2 = {"share": True}
+        elif mode == "near-a":
+            # nearly (not exactly) equal bounds on the two sides of a refinement that holds
+            if not c1["a"]:
+                c1["a"] = [B.rterm(rng, ["x"], alphabet)]
+            c2 = {"near_a": True}
         elif mode == "random":
             c2 = CS.rand_contract(rng, ["x"], ["y"], alphabet, na=(0, 1, 2), ng=(1, 2))
         elif mode == "weaker-a":
@@ -180,7 +185,17 @@ def run(ctx, job):
         ctx.tag("contract")
         c1 = B.mk_contract(ctx, job["c1"], "p")
         spec2 = job["c2"]
-        if spec2.get("share"):
+        if spec2.get("near_a"):
+            from pacti.contracts import PolyhedralIoContract
+
+            P_ = B.P()
+            # right: the left contract itself; left: additionally *guarantees* each assumption loosened by 2^-14, so that
+            # the union (left guarantees | right assumptions) holds two nearly equal bounds
+            c2 = PolyhedralIoContract(c1.a.copy(), c1.g.copy(), list(c1.inputvars), list(c1.outputvars), simplify=False)
+            loose = [P_.PolyhedralTerm(dict(t.variables), t.constant + 2.0**-14) for t in c1.a.terms]
+            c1 = PolyhedralIoContract(c1.a.copy(), P_.PolyhedralTermList(loose + c1.g.copy().terms), list(c1.inputvars), list(c1.outputvars), simplify=False)
+            spec2 = {"in": job["c1"]["in"], "out": job["c1"]["out"]}
+        elif spec2.get("share"):
             c2 = B.mk_contract(ctx, job["c1"], "p")
         else:
             c2 = B.mk_contract(ctx, spec2, "q")
